@@ -18,8 +18,12 @@
 (*             value of an encrypted rendering holds a string or is a       *)
 (*             stream, so RefPhysK's key is observed through the value);    *)
 (*             n = 999 stands for a number >= /Size;                        *)
-(*     trailer the revision whose trailer entries GetMeta().Trailer holds   *)
-(*             (0: none of them).                                           *)
+(*     trailer what GetMeta() reports, per item the revision whose value it *)
+(*             is (0: absent, -1: some other value): ID, Info, XX (entries  *)
+(*             of GetMeta().Trailer), MetaInfo (the decoded information     *)
+(*             dictionary), MetaID (GetMeta().ID), Other (number of entries *)
+(*             that cannot be the newest trailer's: unknown keys, wrong     *)
+(*             /Root, /Encrypt present or absent against the file).         *)
 (*  [t |-> "len", d, blen, lk, declared, open, got, same]                   *)
 (*     d       the bytes of the file from the first data byte of a stream;  *)
 (*     blen    the number of data bytes the serialiser wrote;               *)
@@ -35,7 +39,7 @@ EXTENDS XRefHistory, TraceLib
 
 Cases == Records
 
-HistOf(c) == [k \in 1..Len(c.h) |-> [kind |-> c.h[k].kind, ops |-> c.h[k].ops]]
+HistOf(c) == [k \in 1..Len(c.h) |-> [kind |-> c.h[k].kind, ops |-> c.h[k].ops, tr |-> c.h[k].tr]]
 
 HistCaseOK(c) ==
   LET h == HistOf(c)
